@@ -173,6 +173,12 @@ func init() {
 }
 
 func c12Check(c *Ctx, body []*PS, predicate bool, label string) {
+	c12CheckOpt(c, body, predicate, label, true)
+}
+
+// c12CheckOpt: run=false compiles only (the variable may be unset on one path, which is the
+// known finding F-dynamic-type's territory at run time).
+func c12CheckOpt(c *Ctx, body []*PS, predicate bool, label string, run bool) {
 	want := stmtsVerdict(body, predicate, false)
 	var src string
 	if predicate {
@@ -208,7 +214,7 @@ func c12Check(c *Ctx, body []*PS, predicate bool, label string) {
 			map[string]any{"kind": "compile", "src": src, "want": verb[want]})
 		return
 	}
-	if got == 1 && allLoopsTerminate(body) {
+	if got == 1 && run && allLoopsTerminate(body) {
 		for _, t := range []string{"7", "ab"} {
 			_, pi := runSafe(v, t)
 			c.Count("accepted_programs_run", 1)
@@ -323,6 +329,7 @@ func runC12(c *Ctx) {
 	compound = append(compound,
 		lp(lp(brk), brk), lp(lp(brk), cont), lp(lp(brk, brk)), lp(lp(cont)), lp(ifb(tr, lp(brk)), brk), lp(lp(lp(brk), brk), brk),
 		lp(&PS{K: "ifelse", E: tr, A: []*PS{lp(brk)}, B: []*PS{brk}}, brk), ifb(tr, lp(brk), brk), ifb(tr, lp(brk)), lp(lp(brk), ifb(tr, cont), brk))
+	tv := func(t PT) *PE { return leafVar("t", t) }
 	pool := append(append([]*PS{}, simple...), compound...)
 	c.Count("statement_pool", int64(len(pool)))
 	emitList := func(l []*PS) {
@@ -332,6 +339,71 @@ func runC12(c *Ctx) {
 		lab := stmtLabel(l)
 		for _, pred := range []bool{false, true} {
 			c12Check(c, l, pred, lab)
+		}
+	}
+	if c.Level("branch-assigned variables") {
+		for _, t := range []PT{TStr, TNum, TBool} {
+			for _, where := range []string{"then", "else", "both"} {
+				uses := []*PE{tv(t), bin("-", tv(t), leafNum(1)), un("not", tv(t)), un("head", tv(t)), bin("and", tv(t), leafBool(true)), bin("+", tv(t), leafStr("x")), bin(">", tv(t), leafNum(1)), bin("*", leafNum(2), tv(t))}
+				for _, u := range uses {
+					set := &PS{K: "set", Name: "t", E: good[t][0]}
+					other := &PS{K: "set", Name: "o", E: leafNum(1)}
+					var ifs *PS
+					switch where {
+					case "then":
+						ifs = &PS{K: "ifelse", E: tr, A: []*PS{set}, B: []*PS{other}}
+					case "else":
+						ifs = &PS{K: "ifelse", E: tr, A: []*PS{other}, B: []*PS{set}}
+					default:
+						ifs = &PS{K: "ifelse", E: tr, A: []*PS{set}, B: []*PS{{K: "set", Name: "t", E: good[t][1]}}}
+					}
+					for _, last := range []*PS{{K: "return", E: u}, {K: "set", Name: "r", E: u}, {K: "if", E: u, A: []*PS{{K: "debug", E: leafNum(1)}}}} {
+						l := []*PS{ifs, last}
+						if c.Unit(func() string { return stmtsSrc(l) }) {
+							for _, pred := range []bool{false, true} {
+								c12CheckOpt(c, l, pred, "branch-assigned "+where, where == "both")
+							}
+						}
+					}
+				}
+			}
+		}
+	}
+	if c.Level("two bodies in one source") {
+		// the typing of one transform / predicate must not depend on the bodies compiled before it
+		firsts := []string{"set n to 1 set flag to true set s to 'a' return 'x'", "set n to 'a' set flag to 2 return 'y'", "return 'z'"}
+		seconds := []struct {
+			body string
+			ok   bool
+		}{{"return n - '1'", false}, {"return n + '1'", true}, {"return flag + '<' + match", true}, {"return not flag", false}, {"return n * 2", true}, {"return s and true", false}, {"return head s", true}, {"if flag then return 'a' end return 'b'", false}}
+		for _, f := range firsts {
+			for _, sec := range seconds {
+				for _, firstKind := range []string{"transform", "predicate"} {
+					f, sec, firstKind := f, sec, firstKind
+					var src string
+					if firstKind == "transform" {
+						src = "set f1 to transform " + f + " end\n"
+					} else {
+						src = "set p1 to pattern 'a' begin " + strings.Replace(f, "return '", "debug '", 1) + " return true end\n"
+					}
+					src += "set f2 to transform " + sec.body + " end\nreplace all 'a' with f2"
+					if !c.Unit(func() string { return src }) {
+						continue
+					}
+					c.Eval(1)
+					c.Nontrivial(1)
+					_, err, pi := compileSafe(src)
+					if pi != nil {
+						c.Violation("COMPILE-PANIC "+pi.Site, fmt.Sprintf("%q panics: %s", src, pi.Msg), map[string]any{"kind": "compile", "src": src})
+						continue
+					}
+					if (err == nil) != sec.ok {
+						verb := map[bool]string{true: "accepted", false: "rejected"}
+						c.Violation("TYPING two-bodies "+verb[err == nil], fmt.Sprintf("`%s` after a %s `%s`: %s, the documented rules say %s (every body starts from match/matchLength only)", sec.body, firstKind, f, verb[err == nil], verb[sec.ok]),
+							map[string]any{"kind": "compile", "src": src, "want": verb[sec.ok]})
+					}
+				}
+			}
 		}
 	}
 	if c.Level("statements:1") {
